@@ -102,12 +102,29 @@ class State(object):
 
     def same(self, a, b):
         """Are the two terms known to denote the same value?"""
-        a, b = self.canon(a), self.canon(b)
+        a, b = self.uncat(self.canon(a)), self.uncat(self.canon(b))
         if a == b:
             return True
         da, db = self.dom(a), self.dom(b)
         ca, cb = da.const(), db.const()
         return ca is not None and ca == cb
+
+    def uncat(self, t):
+        """cat(byte(x,0), ..., byte(x,n-1)) -> x when x is known to fit n bytes."""
+        if t[0] == 'cat':
+            bs = t[1]
+            b0 = bs[0]
+            if b0[0] == 'byte' and b0[2] == 0:
+                x = b0[1]
+                if all(b == ('byte', x, i) for i, b in enumerate(bs)):
+                    d = self.dom(x)
+                    if d.lo >= 0 and d.hi < (1 << (8 * len(bs))):
+                        return x
+        elif t[0] == 'byte' and t[2] == 0:
+            d = self.dom(t[1])
+            if d.lo >= 0 and d.hi < 256:
+                return t[1]
+        return t
 
     def touch(self):
         self._cc = None
